@@ -255,6 +255,9 @@ def paths(fn, max_paths=4096, loops="error", stores=False):
         if isinstance(s, ast.Raise):
             out.append(Path(conds, "raise", subst(s.exc, env), env, effects, s))
             return
+        if isinstance(s, (ast.Continue, ast.Break)):
+            out.append(Path(conds, "continue" if isinstance(s, ast.Continue) else "break", None, env, effects, s))
+            return
         if isinstance(s, (ast.Pass, ast.Global, ast.Nonlocal, ast.Import, ast.ImportFrom)):
             return nxt(conds, env, effects)
         if isinstance(s, ast.Assert):
